@@ -58,6 +58,11 @@ func (m *lru) keys() []string {
 func propLRU(t *rapid.T) {
 	ev.Case()
 	capacity := rapid.IntRange(0, 5).Draw(t, "cap")
+	big := rapid.IntRange(0, 24).Draw(t, "bigCache") == 0
+	if big {
+		// capacities of real deployments (the default is 1000): filled to the brim first, so that the steps below overflow it
+		capacity = rapid.SampledFrom([]int{255, 256, 257, 300, 512, 1000}).Draw(t, "bigCap")
+	}
 	nkeys := rapid.IntRange(1, 8).Draw(t, "nkeys")
 	keys := make([]string, nkeys)
 	for i := range keys {
@@ -70,6 +75,14 @@ func propLRU(t *rapid.T) {
 		r := rux.NewNamedRoute(label, "/x", func(*rux.Context) {})
 		routes[label] = r
 		return r
+	}
+	if big {
+		for i := 0; i < capacity-rapid.IntRange(0, 2).Draw(t, "roomLeft"); i++ {
+			k, v := fmt.Sprintf("GET/fill%d", i), newRoute(fmt.Sprintf("fill%d", i))
+			c.Set(k, v)
+			m.items = append([]entry{{k, v}}, m.items...)
+		}
+		ev.Class("cache-of-real-size-filled-to-the-brim")
 	}
 	nval := 0
 	evictions, getsThatReorder, evictAfterReorder := 0, 0, false
